@@ -74,3 +74,18 @@ From RS Require Import PipelineOptStmts PipelineOptFacts.
 Theorem end_to_end_with_modelled_optimiser : stmt_end_to_end_opt.
 Proof. exact end_to_end_opt. Qed.
 Print Assumptions end_to_end_with_modelled_optimiser.
+
+(** The unserved passengers evaluated from the VEHICLE view (the vehicles serving a segment are those whose itinerary contains
+    it): clause 405 of the check.  It agrees with the trip view whenever check_C03 passes, so every answer the end-to-end theorem
+    speaks of passes it too; it is not implied by check_C04 alone (witness: a formation listing a vehicle that does not run the
+    trip — seeded C04i). *)
+From RS Require Import OutputVV OutVVStmts OutVVFacts.
+Theorem C04_unserved_of_both_views_agree : stmt_unserved_views_agree.
+Proof. exact unserved_views_agree. Qed.
+Print Assumptions C04_unserved_of_both_views_agree.
+Theorem C04_vehicle_view_clause_follows_from_C03_and_C04 : stmt_C04_vv_of_C03_C04.
+Proof. exact C04_vv_of_C03_C04. Qed.
+Print Assumptions C04_vehicle_view_clause_follows_from_C03_and_C04.
+Theorem C04_vehicle_view_clause_is_not_implied_by_the_trip_view : stmt_C04_vv_independent.
+Proof. exact C04_vv_independent. Qed.
+Print Assumptions C04_vehicle_view_clause_is_not_implied_by_the_trip_view.
